@@ -203,10 +203,22 @@ pub fn check_event(ev: &Event, st: &mut Stats, out: &mut Vec<Viol>) {
     for m in &post.g1 { v(out, "C07", "g1", format!("after {}: {}", op.to_text(), m)); }
     for m in &post.g2 { v(out, "C07", "g2", format!("after {}: {}", op.to_text(), m)); v(out, "C12", "g2", format!("after {}: {}", op.to_text(), m)); v(out, "C05", "g2", format!("after {}: {}", op.to_text(), m)); }
     for m in &post.g3 { v(out, "C07", "g3", format!("after {}: {}", op.to_text(), m)); v(out, "C04", "g3", format!("after {}: {}", op.to_text(), m)); }
-    // a capacity operation that leaves the list/table structure incoherent has not been transparent (and a failed
-    // try_reserve has not left the cache exactly as it was)
-    if !post.g1.is_empty() && pre.g1.is_empty() && matches!(op, Op::Reserve { .. } | Op::TryReserve { .. } | Op::TryReserveFail { .. } | Op::ShrinkTo { .. } | Op::ShrinkFit) {
-        v(out, "C13", if o.tag.starts_with("err_") { "failed-reserve-changed" } else { "not-transparent" }, format!("{} (outcome {}) left the cache incoherent: {}", op.to_text(), o.tag, post.g1[0]));
+    // An operation that leaves the list/table structure incoherent has also failed what its own property says about
+    // the entries that remain (their relative order is what traversal reports; "nothing else is touched"; "exactly as it was"):
+    // retain -> C15, capacity operations -> C13, iterators -> C12, clone -> C14, mutate -> C11, promotions -> C05,
+    // rejected insertions -> C10. Other operations' properties speak about lookups or sizes only and are left alone.
+    if !post.g1.is_empty() && pre.g1.is_empty() {
+        let owner: Option<(&'static str, &str)> = match op {
+            Op::Reserve { .. } | Op::TryReserve { .. } | Op::TryReserveFail { .. } | Op::ShrinkTo { .. } | Op::ShrinkFit => Some(("C13", if o.tag.starts_with("err_") { "failed-reserve-changed" } else { "not-transparent" })),
+            Op::Retain { .. } => Some(("C15", "structure-broken")),
+            Op::Iterate { .. } => Some(("C12", "structure-broken")),
+            Op::CloneCache => Some(("C14", "structure-broken")),
+            Op::Mutate { .. } => Some(("C11", "structure-broken")),
+            Op::Get { .. } | Op::GetEntry { .. } | Op::Touch { .. } | Op::GetLru | Op::Peek { .. } | Op::PeekEntry { .. } | Op::PeekLru | Op::PeekMru | Op::Contains { .. } | Op::Debug => Some(("C05", "structure-broken")),
+            Op::Insert { .. } | Op::TryInsert { .. } if o.tag.starts_with("err_") => Some(("C10", "not-atomic")),
+            _ => None,
+        };
+        if let Some((prop, sig)) = owner { v(out, prop, sig, format!("{} (outcome {}) left the cache incoherent, so the entries that remain are no longer what/where they were: {}", op.to_text(), o.tag, post.g1[0])); }
     }
     for m in &post.g1 { if m.contains("key id occurs twice") { v(out, "C04", "dup-key", format!("after {}: {}", op.to_text(), m)); } }
     if !post.g1.is_empty() { return; }
